@@ -96,7 +96,7 @@ def fold_case(draw):
     acc = draw(st.sampled_from(sorted(ACCS)))
     mono = draw(st.integers(0, 4)) == 0
     case = {
-        'acc': acc, 'seed_as': draw(st.sampled_from(['value', 'factory'])), 'reduce': draw(st.booleans()),
+        'acc': acc, 'seed_as': draw(st.sampled_from(['value', 'factory', 'factory', 'partial', 'callable_obj'])), 'reduce': draw(st.booleans()),
         'term': draw(st.booleans()), 'prefilter': draw(st.one_of(st.none(), st.tuples(st.integers(2, 3), st.integers(0, 1)).map(list))),
         'tin': 'mono' if mono else 'int',
     }
@@ -122,7 +122,18 @@ def fold_case(draw):
 def make_scan(case, term_log):
     real, pure, seedf, mutable = ACCS[case['acc']]
     seed_obj = seedf()
-    seed = seed_obj if case['seed_as'] == 'value' else seedf
+    if case['seed_as'] == 'value':
+        seed = seed_obj
+    elif case['seed_as'] == 'partial':
+        import functools
+        seed = functools.partial(lambda f: f(), seedf)         # a callable that is neither a function nor a class
+    elif case['seed_as'] == 'callable_obj':
+        class _Factory(object):
+            def __call__(self):
+                return seedf()
+        seed = _Factory()
+    else:
+        seed = seedf
     term = None
     if case['term']:
         tf = TERMS[case['acc']]
@@ -260,7 +271,7 @@ def check_fold(case):
 
 @st.composite
 def resub_case(draw):
-    return {'acc': draw(st.sampled_from(sorted(ACCS))), 'seed_as': draw(st.sampled_from(['value', 'factory'])),
+    return {'acc': draw(st.sampled_from(sorted(ACCS))), 'seed_as': draw(st.sampled_from(['value', 'factory', 'partial', 'callable_obj'])),
             'reduce': draw(st.booleans()), 'term': draw(st.booleans()), 'items': draw(gen.int_items(8)),
             'mode': draw(st.sampled_from(['plain', 'store', 'hot2']))}
 
